@@ -40,17 +40,20 @@ ANCHORS = [
     "onnxscript.function_libs.torch_lib.ops.core:aten_add.func",
     "onnxscript.function_libs.torch_lib.ops.core:aten_addmm.func",
     "onnxscript.function_libs.torch_lib.ops.core:aten_slice.func",
-    "onnxscript.function_libs.torch_lib.registration:torch_op",
     "onnxscript._framework_apis.torch_2_5:get_torchlib_ops",
 ]
 TIMEOUT = 900.0
 
-NCHUNK = {"quick": 2, "thorough": 6}
+PER_SPEC = {"quick": 9, "thorough": 3}   # overloads per direct spec
 REPS_TARGET = 200
 
 
 def thresholds(tier):
-    return {}
+    # <= 1/5 of what the unchanged tree gives in the quick tier (thorough gives more of everything)
+    return {"direct_ok": 1200, "ort_ran": 1200, "traced": 1300, "overloads_covered": 69, "distinct_nontrivial": 1300,
+            "aten_bodies_entered": 50, "e2e_compared": 5, "e2e_dispatches_to_repo_torchlib": 35,
+            "anchor:onnxscript.function_libs.torch_lib.ops.core:aten_div_mode.func": 12,
+            "anchor:onnxscript.function_libs.torch_lib.ops.core:aten_sum_dim_IntList.func": 20}
 
 
 def _families():
@@ -59,22 +62,52 @@ def _families():
     return c08_strata.FAMILIES
 
 
+E2E = {"quick": (30, 10), "thorough": (1500, 50)}   # (modules, modules per spec)
+
+
 def cases(tier, seed):
     out = []
+    n_mod, per = E2E.get(tier, E2E["quick"])
+    for lo in range(0, n_mod, per):
+        out.append({"kind": "e2e", "lo": lo, "hi": min(n_mod, lo + per), "seed": seed, "tier": tier})
     fams = _families()
     for fam in sorted(fams):
-        n = NCHUNK.get(tier, 2)
-        n = max(1, min(n, len(fams[fam])))
+        n = max(1, -(-len(fams[fam]) // PER_SPEC.get(tier, 9)))
         for i in range(n):
             out.append({"kind": "direct", "family": fam, "i": i, "n": n, "seed": seed, "tier": tier})
     return out
 
 
+_dispatched = {}
+
+
 def worker_init():
     from . import c08_core
 
-    c08_core.env()
+    E = c08_core.env()
+    E.torch.set_num_threads(1)
     c08_core.coverage_install()
+    # pass-through monitor on the exporter's dispatcher: which registered function was chosen for an FX node
+    from torch.onnx._internal.exporter import _core as ecore
+    from torch.onnx._internal.exporter import _dispatching
+
+    orig = _dispatching.dispatch
+
+    def dispatch(node, registry):
+        r = orig(node, registry)
+        try:
+            f = r[0]
+            if f is not None:
+                nm = getattr(f, "name", None) or getattr(f, "__name__", repr(f))
+                mod_ = getattr(getattr(f, "func", None) or getattr(f, "function", None) or f, "__module__", "")
+                _dispatched[(str(node.target), nm, mod_)] = _dispatched.get((str(node.target), nm, mod_), 0) + 1
+        except Exception:
+            pass
+        return r
+
+    _dispatching.dispatch = dispatch
+    if getattr(ecore, "_dispatching", None) is _dispatching:
+        pass  # _core calls _dispatching.dispatch through the module attribute
 
 
 def run_direct(spec):
@@ -144,9 +177,48 @@ def run_direct(spec):
             "sample": None, "data": {"sigs": sigs, "per": per, "notes": notes, "cov": cov}}
 
 
+def run_e2e(spec):
+    from . import c08_core as core
+    from . import c08_e2e as e2e
+
+    events, viol, sigs, notes = {}, {}, [], {"refused": [], "disputed": [], "other": []}
+    ops_used = {}
+    _dispatched.clear()
+    for i in range(spec["lo"], spec["hi"]):
+        if spec.get("index") is not None and i != spec["index"]:
+            continue
+        r = e2e.run_module(i, spec["seed"])
+        stt = r["status"]
+        events["e2e_modules"] = events.get("e2e_modules", 0) + 1
+        k = "e2e_" + stt if not stt.startswith("e2e_") else stt
+        events[k] = events.get(k, 0) + 1
+        if stt in ("ok", "violation", "e2e_disputed"):
+            events["e2e_compared"] = events.get("e2e_compared", 0) + 1
+            sigs.append("e2e|" + "+".join(r.get("ops", [])))
+            for o in r.get("ops", []):
+                ops_used[o] = ops_used.get(o, 0) + 1
+        if stt == "violation":
+            v = r["viol"]
+            if v["key"] not in viol:
+                viol[v["key"]] = v
+        elif stt == "e2e_refused" and len(notes["refused"]) < 6:
+            notes["refused"].append(f"module#{i} {'+'.join(r.get('ops', []))}: {r.get('info')}")
+        elif stt == "e2e_disputed" and len(notes["disputed"]) < 6:
+            notes["disputed"].append(f"module#{i}: {r.get('info')}")
+        elif stt not in ("ok", "violation") and len(notes["other"]) < 6:
+            notes["other"].append(f"module#{i} {stt}: {r.get('info')}")
+    disp = [[t, f, m, n] for (t, f, m), n in sorted(_dispatched.items())]
+    events["e2e_dispatches"] = sum(d[3] for d in disp)
+    events["e2e_dispatches_to_repo_torchlib"] = sum(d[3] for d in disp if d[2].startswith("onnxscript.function_libs.torch_lib"))
+    return {"status": "ok", "viol": list(viol.values()), "events": events, "nontrivial": True, "sig": None, "sample": None,
+            "data": {"sigs": sigs, "e2e_notes": notes, "e2e_ops": ops_used, "e2e_dispatched": disp, "cov": core.coverage_take()}}
+
+
 def run_case(spec):
     if spec["kind"] == "direct":
         return run_direct(spec)
+    if spec["kind"] == "e2e":
+        return run_e2e(spec)
     raise ValueError(spec["kind"])
 
 
@@ -166,6 +238,21 @@ def finalize(ctx):
         disputed.extend(n.get("disputed") or [])
         checker.extend(n.get("checker") or [])
         notimpl.update(n.get("not_implemented") or {})
+    e2e_ops, e2e_disp, e2e_notes = {}, {}, {"refused": [], "disputed": [], "other": []}
+    for r in ctx.results:
+        d = r.get("data") or {}
+        for o, n_ in (d.get("e2e_ops") or {}).items():
+            e2e_ops[o] = e2e_ops.get(o, 0) + n_
+        for t, f, m, n_ in d.get("e2e_dispatched") or []:
+            e2e_disp[f] = e2e_disp.get(f, 0) + n_
+        for k_, v_ in (d.get("e2e_notes") or {}).items():
+            e2e_notes[k_].extend(v_)
+    ctx.extra["e2e_templates_compared"] = len(e2e_ops)
+    ctx.extra["e2e_functions_dispatched"] = dict(sorted(e2e_disp.items(), key=lambda kv: -kv[1])[:80])
+    ctx.events["e2e_distinct_functions_dispatched"] = len(e2e_disp)
+    ctx.extra["e2e_refused_samples"] = e2e_notes["refused"][:10]
+    ctx.extra["e2e_disputed_samples"] = e2e_notes["disputed"][:10]
+    ctx.extra["e2e_other_samples"] = e2e_notes["other"][:10]
     covered = sorted(q for q, po in per.items() if po.get("ok", 0) + po.get("violation", 0) + po.get("disputed", 0) > 0)
     ctx.extra["covered_overloads"] = covered
     ctx.extra["covered_overloads_count"] = len(covered)
